@@ -41,6 +41,8 @@ def float_spec(p, what, e):
     kind = what[0]
     if kind == "zero":
         return 0.0
+    if kind == "one":
+        return 1.0
     if kind == "f":
         return X.evalf(p.update[what[1]], e)
     if kind == "G":
@@ -177,6 +179,10 @@ def task(p, cse, ekf, tier, seed):
         for s in ss:
             for pre in ("s0_", "s1_"):
                 oblige("defaults", l, f"{pre}{s}", z3.RealVal(0), ("zero",), f"default State[{s}]==0")
+        for i in range(n):
+            for j in range(n):
+                oblige("defaults", l, f"c0_{i}_{j}", z3.RealVal(1 if i == j else 0), ("one",) if i == j else ("zero",), f"default Covariance[{ss[i]},{ss[j]}]=={int(i == j)}")
+            oblige("defaults", l, f"c0diag_{ss[i]}", z3.RealVal(1), ("one",), f"default Covariance.{ss[i]}()==1 (unit variance)")
         reach(part, key_base + "/assumptions-sat", assumes)
     finally:
         cf.__exit__(None, None, None)
@@ -260,7 +266,7 @@ def replay(path):
         outs, _, _ = cf.run_concrete(info["scenario"], e)
     what = tuple(info["what"])
     got = outs[info["output"]]
-    want = 0.0 if what[0] == "zero" else float_spec(p, what, e)
+    want = float_spec(p, what, e)
     print("got", got, "want", want)
     if not approx_equal(got, want):
         print("REPRODUCED")
